@@ -56,6 +56,65 @@ static const unsigned char sha_perm[][3] = { {0, 21, 42}, {22, 43, 1}, {44, 2, 2
 #define SHA_NTRIPLES 21
 #endif
 
+#if defined M_nt
+#include "alg-md4.h"
+XV_DIGEST_STUB (md4, MD4_CTX, 16, MD4_Init, MD4_Update, MD4_Final, size_t)
+#define STUB_STRCPY_OR_ABORT 1
+#include "contracts/strcpy_or_abort.h"
+#include "lib/crypt-nthash.c"
+#define METHOD_FN crypt_nt_rn
+#define SCRATCH_T crypt_nt_internal_t
+#define PREFIX "$3$"
+#endif
+#if defined M_sunmd5
+#include "alg-md5.h"
+XV_DIGEST_STUB (md5, MD5_CTX, 16, MD5_Init, MD5_Update, MD5_Final, size_t)
+#include "lib/crypt-sunmd5.c"
+#define METHOD_FN crypt_sunmd5_rn
+#define PREFIX "$md5"
+#define METHOD_CAN_FAIL 1
+#ifndef XV_NATIVE
+/* contract of muffet_coin_toss (static; enforced for memory safety by job
+   sunmd5_coin_toss): a pure function of the 16 digest bytes and the round */
+bool muffet_coin_toss_stub (const uint8_t prev_digest[16], unsigned int round_count)
+{
+  XV_STUBPRE ("C04", XV_R_OK (prev_digest, 16), "muffet_coin_toss: 16 readable digest bytes");
+  (void) round_count;
+  return nondet_bool ();
+}
+#endif
+#endif
+#if defined M_descrypt || defined M_bigcrypt || defined M_bsdicrypt
+#include "contracts/des_stubs.h"
+#include "lib/crypt-des.c"
+#define METHOD_CAN_FAIL 1
+#if defined M_descrypt
+#define METHOD_FN crypt_descrypt_rn
+#define PREFIX ""
+#elif defined M_bigcrypt
+#define METHOD_FN crypt_bigcrypt_rn
+#define PREFIX ""
+#else
+#define METHOD_FN crypt_bsdicrypt_rn
+#define PREFIX "_"
+#endif
+#endif
+
+/* bounded memcpy for the methods that copy a symbolic number of setting
+   bytes into the 384-byte output (CBMC's built-in model of memcpy with a
+   symbolic length is prohibitively expensive) */
+#if (defined M_sunmd5) && !defined XV_NATIVE
+void *memcpy (void *d, const void *s, size_t n)
+{
+  __CPROVER_assert (n <= 384, "memcpy model: at most CRYPT_OUTPUT_SIZE bytes");
+  XV_STUBPRE ("C04", n == 0 || (XV_W_OK (d, n) && XV_R_OK (s, n)), "memcpy: destination writable and source readable for n bytes");
+  unsigned char *dp = d; const unsigned char *sp = s;
+  for (size_t i = 0; i < 384; i++)   /* XV_UNWIND 384 */
+    if (i < n) dp[i] = sp[i];
+  return d;
+}
+#endif
+
 static const unsigned char spec_b64[65] =
   "./0123456789ABCDEFGHIJKLMNOPQRSTUVWXYZabcdefghijklmnopqrstuvwxyz";
 
@@ -120,9 +179,22 @@ void harness (void)
   size_t out_size = 384, scr_size = 8192;
 #endif
   unsigned char *out = malloc (384);
-  /* scratch: 16-aligned like struct crypt_internal, arbitrary contents */
+  /* scratch: 8192 bytes, 16-aligned like struct crypt_internal, arbitrary
+     contents.  Where the method's scratch type is visible the object is
+     allocated with that type in front (CBMC then accesses its fields directly
+     instead of reinterpreting a byte array). */
+#ifdef SCRATCH_T
+  struct { _Alignas (16) SCRATCH_T s; unsigned char pad[8192 - sizeof (SCRATCH_T)]; } *scr0 = malloc (8192);
+  struct { unsigned char *b; } scr_, *scr = &scr_;
+  scr_.b = (unsigned char *) scr0;
+#else
   struct { _Alignas (16) unsigned char b[8192]; } *scr = malloc (sizeof *scr);
+#endif
+#ifdef SCRATCH_T
+  XV_ASSUME (out != NULL && scr0 != NULL);
+#else
   XV_ASSUME (out != NULL && scr != NULL);
+#endif
   out[0] = '*'; out[1] = '0'; out[2] = 0;
   unsigned char o_gk = out[gk];
   XV_IN (size_t, pk, nondet_size);
@@ -132,6 +204,9 @@ void harness (void)
 
   xv_phrase_p = phr; xv_phrase_n = phr_len; xv_phrase_absorbed = 0;
   xv_parse_n = 0; xv_dec_n = 0;
+#if defined M_descrypt || defined M_bigcrypt || defined M_bsdicrypt
+  xv_des_keys = 0; xv_des_blocks = 0; xv_des_key_set = 0; xv_des_salt_set = 0;
+#endif
   errno = 0;
   METHOD_FN ((const char *) phr, phr_len, (const char *) set, set_len, out, out_size, scr->b, scr_size);
   int err = errno;
@@ -246,6 +321,101 @@ void harness (void)
 #endif
     XV_ASSERT ("C02,C06", enc_ok, "the digest characters are SHA-crypt.txt's permutation and radix-64 encoding of the final digest");
   }
+#endif
+
+#if defined M_nt
+  /* $3$$ + 32 lower-case hex digits of MD4 (UCS-2LE (phrase)) */
+  XV_ASSERT ("C06,C01", out[0] == '$' && out[1] == '3' && out[2] == '$' && out[3] == '$' && out[36] == 0, "$3$$ + 32 characters + NUL");
+  {
+    const unsigned char *d = xv_md4_last;
+    static const char hex[17] = "0123456789abcdef";
+    bool enc_ok = true;
+    for (unsigned i = 0; i < 16; i++)   /* XV_UNWIND 16 */
+      if (out[4 + 2 * i] != (unsigned char) hex[d[i] >> 4] || out[5 + 2 * i] != (unsigned char) hex[d[i] & 15]) enc_ok = false;
+    XV_ASSERT ("C02,C06", enc_ok, "the 32 characters are the lower-case hexadecimal form of the MD4 digest");
+  }
+  XV_ASSERT ("C03", xv_md4_finals == 1 && xv_md4_upd_n == 2 * phr_len && XV_SAME_OBJ (xv_md4_upd_p, scr->b),
+             "exactly 2 * strlen (phrase) bytes of the UCS-2 buffer are hashed");
+  XV_ASSERT ("C06", gk > 35 || xv_passwd_safe (out[gk]), "every character is passwd-safe");
+#endif
+
+#if defined M_descrypt || defined M_bsdicrypt
+  /* key material: phrase bytes shifted left by one, zero padded (the 8th bit
+     is dropped - documented); salt and count as decoded from the setting */
+#if defined M_descrypt
+  {
+    int v0 = xv_b64_val (set[0]), v1 = set_len > 1 ? xv_b64_val (set[1]) : -1;
+    XV_ASSERT ("C05,C06", v0 >= 0 && v1 >= 0, "success only with two salt characters from ./0-9A-Za-z");
+    XV_ASSERT ("C06,C01", out[0] == set[0] && out[1] == set[1] && out[13] == 0, "2 salt characters + 11 hash characters + NUL");
+    XV_ASSERT ("C01,C03", xv_des_last_salt == (uint32_t) (v0 | (v1 << 6)) && xv_des_last_count == 25 && xv_des_blocks == 1,
+               "12-bit salt and 25 iterations reach the cipher");
+    bool key_ok = true;
+    for (unsigned i = 0; i < 8; i++)   /* XV_UNWIND 8 */
+      if (xv_des_last_key[i] != (unsigned char) ((i < phr_len ? phr[i] : 0) << 1)) key_ok = false;
+    XV_ASSERT ("C03,C02", key_ok && xv_des_keys == 1, "the key is the first 8 phrase bytes shifted left by one bit, zero padded");
+    XV_ASSERT ("C06", gk >= 11 || xv_is_b64 (out[2 + gk]), "hash characters are from ./0-9A-Za-z");
+  }
+#else
+  {
+    bool alpha = set_len >= 9;
+    unsigned long cnt = 0, slt = 0;
+    for (unsigned i = 1; i < 9; i++)   /* XV_UNWIND 9 */
+      if (alpha)
+        {
+          int v = xv_b64_val (set[i]);
+          if (v < 0) alpha = false;
+          else if (i < 5) cnt |= (unsigned long) v << (6 * (i - 1));
+          else slt |= (unsigned long) v << (6 * (i - 5));
+        }
+    XV_ASSERT ("C05,C06", alpha, "success only with 8 count/salt characters from ./0-9A-Za-z");
+    XV_ASSERT ("C06,C01", gk >= 9 || out[gk] == set[gk], "_ + count + salt are copied verbatim");
+    XV_ASSERT ("C06", out[20] == 0 && (gk >= 11 || xv_is_b64 (out[9 + gk])), "11 hash characters + NUL");
+    XV_ASSERT ("C01,C03,C11", xv_des_last_salt == slt && xv_des_last_count == cnt, "24-bit salt and 24-bit count reach the cipher");
+    bool key_ok = true;
+    for (unsigned i = 0; i < 8; i++)   /* XV_UNWIND 8 */
+      if (xv_des_first_key[i] != (unsigned char) ((i < phr_len ? phr[i] : 0) << 1)) key_ok = false;
+    XV_ASSERT ("C03", key_ok && xv_des_keys == (phr_len == 0 ? 1 : (phr_len + 7) / 8),
+               "every 8-byte block of the phrase is folded into the key (first block checked byte by byte)");
+  }
+#endif
+#if defined M_descrypt
+  XV_ASSERT ("C06", gk >= 13 || xv_passwd_safe (out[gk]), "every character is passwd-safe");
+#else
+  XV_ASSERT ("C06", gk >= 20 || xv_passwd_safe (out[gk]), "every character is passwd-safe");
+#endif
+#endif
+
+#if defined M_bigcrypt
+  {
+    int v0 = xv_b64_val (set[0]), v1 = set_len > 1 ? xv_b64_val (set[1]) : -1;
+    XV_ASSERT ("C05,C06", v0 >= 0 && v1 >= 0, "success only with two salt characters from ./0-9A-Za-z");
+    XV_ASSERT ("C06,C01", out[0] == set[0] && out[1] == set[1], "the salt is reproduced");
+    /* one 11-character block per 8 phrase bytes, at most 16; a phrase of more
+       than 8 bytes with a setting of at most 13 characters is a plain DES request */
+    size_t blocks = (phr_len > 8 && set_len <= 13) ? 1 : (phr_len == 0 ? 1 : (phr_len + 7) / 8);
+    if (blocks > 16) blocks = 16;
+    XV_ASSERT ("C06", out[2 + 11 * blocks] == 0, "2 + 11 * blocks characters");
+    XV_ASSERT ("C06", gk >= 2 + 11 * blocks || xv_is_b64 (out[gk]), "all characters from ./0-9A-Za-z");
+    XV_ASSERT ("C03", xv_des_keys == blocks && xv_des_blocks == blocks, "one key schedule and one encryption per block");
+  }
+#endif
+
+#if defined M_sunmd5
+  /* $md5[,$][rounds=N$]salt[$[$]] + $ + 22 characters: the setting up to the
+     salt terminator is reproduced verbatim */
+  XV_ASSERT ("C06,C01", out[0] == '$' && out[1] == 'm' && out[2] == 'd' && out[3] == '5', "prefix $md5");
+  {
+    size_t n = 0;
+    bool ended = false;
+    for (size_t k = 0; k < 384; k++)   /* XV_UNWIND 384 */
+      if (!ended) { if (out[k] == 0) ended = true; else n++; }
+    XV_ASSERT ("C04,C06", ended && n >= 4 + 1 + 22 + 1, "NUL-terminated inside the 384-byte output");
+    size_t saltlen = n - 23;
+    XV_ASSERT ("C06,C01", gk >= saltlen || gk >= set_len || out[gk] == set[gk], "the setting part is copied verbatim");
+    XV_ASSERT ("C06", out[saltlen] == '$' && (gk >= 22 || xv_is_b64 (out[saltlen + 1 + gk])), "$ + 22 characters from ./0-9A-Za-z");
+    XV_ASSERT ("C06", gk >= n || xv_passwd_safe (out[gk]), "every character is passwd-safe");
+  }
+  XV_ASSERT ("C03", xv_phrase_absorbed >= 1, "the whole phrase is absorbed by the digest");
 #endif
 #endif
 }
